@@ -73,6 +73,18 @@ CHECKS["C06"] = dict(level=MC, design="DESIGN.md section 6, C06", note=_SRH_NOTE
          "entries, promotions stay inside the function; functions without code leave all three tables (except documented "
          "zero-sized blocks).")
 
+CHECKS["C03"] = dict(level=MC, design="DESIGN.md section 6, C03", note=_SRH_NOTE + " Layouts add every terminator kind, "
+    "callers/callees with a multi-block callee and one or two call sites. Three genuine defects are listed in "
+    "known_findings.json and reported as KNOWN-FINDING; fallthrough edges to a proxy/zero-sized block where no code "
+    "follows, and incoming edges redirected to the proxy under retarget_to_proxy, are accepted as documented.",
+    technique=_SRH_TECH,
+    text="Same exploration as C01; the resulting CFG is flattened to instructions (each block's atoms by listing position) "
+         "and compared, edge set by edge set, with the control flow of the edited listing computed by the listing model: "
+         "fallthrough exactly where the instruction can fall through into code, branch/call edges to the instruction at "
+         "the target label (or the symbol's proxy) with conditional/direct flags, return edges of a function to the return "
+         "sites of the calls that target it or to one proxy, no edge endpoint outside the module, no control transfer "
+         "inside a block, zero-sized blocks only with the documented fallthrough-to-proxy edge.")
+
 NOT_YET = "check not built yet in this round (planned, see DESIGN.md section 6)"
 
 manifest = {
